@@ -26,7 +26,7 @@ RULE = ('one run = one seeded object-graph history (link, unlink, re-link, '
         'non-trivial = the pack removed something; distinct = (kind, gc, '
         'history hash, pack time)')
 BUDGET = {'quick': {'runs': 1000, 'wall': 300, 'chunk': 5},
-          'thorough': {'runs': 30000, 'wall': 3000, 'chunk': 10}}
+          'thorough': {'runs': 30000, 'wall': 2400, 'chunk': 10}}
 ASSUMPTIONS = [
     'a pack that raises is not a C07 violation provided the storage is '
     'unchanged (C08 demands "usable and unchanged"); successful packs are '
